@@ -21,4 +21,7 @@ uint64_t w_sa_pack2(uint8_t* lens_be, uint8_t* bytes, uint64_t n, uint8_t* packe
 uint64_t w_sa_count(uint8_t* packed, uint64_t data_length);
 uint64_t w_sa_unpack(uint8_t* packed, uint64_t data_length, uint64_t req, uint8_t* dest, uint8_t* offs_be, uint8_t* out_lens_be);
 uint64_t w_bo2(uint64_t helper, uint64_t x, uint8_t* image);
-uint64_t w_bo3(uint64_t helper, uint64_t x, uint8_t* image) __attribute__((weak));   /* helper set as compiled without predefined byte-order macros (little-endian worlds only) */
+uint64_t w_bo3(uint64_t helper, uint64_t x, uint8_t* image) __attribute__((weak));
+uint64_t w_bo4(uint64_t helper, uint64_t x, uint8_t* image) __attribute__((weak));   /* helper set as compiled after <byteswap.h>, <endian.h>, <arpa/inet.h>, <sys/param.h> (worlds with a hosted libc only) */
+uint64_t w_boc(uint64_t helper, uint64_t k, uint8_t* image);   /* literal arguments; helper 99: number of constants, 98: constant k */
+uint64_t w_bo4c(uint64_t helper, uint64_t k, uint8_t* image) __attribute__((weak));   /* helper set as compiled without predefined byte-order macros (little-endian worlds only) */
